@@ -10,9 +10,14 @@
 (* the state record S.  Unlike EngineSeq the table of COMPUTING queries is *)
 (* part of S (S.comp), because a cycle search started deep in the call     *)
 (* chain reads the callees registered by, and sets the in-SCC flag of,     *)
-(* queries further up.  Programs contain inputs and Normal queries only    *)
-(* (no firewalls / projections: their part is EngineSeq's); fingerprints   *)
-(* are tagged values.                                                      *)
+(* queries further up.  Programs contain inputs, Normal queries and         *)
+(* FIREWALL queries (no projections: their part is EngineSeq's):           *)
+(* dirty propagation stops at a firewall, a recomputed firewall whose      *)
+(* fingerprint changed propagates dirtiness itself, every query records    *)
+(* the firewalls below it (transitive firewall callees, tfc), and a        *)
+(* user-level or RepairFirewall request that finds a query out of date     *)
+(* repairs that set first (Snapshot::repair_transitive_firewall_callees),  *)
+(* before the query's lock is taken.  Fingerprints are tagged values.      *)
 (*                                                                         *)
 (*   QF / QFLoop   Engine::query_for (register_callee, exit_scc, fast      *)
 (*                 path, slow path, is_query_running_in_scc)               *)
@@ -39,16 +44,21 @@
 (*   "forget"  a read that ends in CyclicError because the caller is in an *)
 (*             SCC leaves no observation of that callee                    *)
 (* TLC decides which of them meets `Correct` (EngineCycMC).                *)
+(* Switch TfcChain: TRUE = requests made on behalf of a transitive-        *)
+(* firewall repair carry the chain of queries already being handled and    *)
+(* skip them (the code since FX_FW_TFC_RECURSION); FALSE = the code        *)
+(* before: a firewall on a cycle has itself among its transitive firewall  *)
+(* callees and the repair recurses until the fuel of the model is gone.    *)
 (***************************************************************************)
 EXTENDS Program, TLC
 
-CONSTANTS SccFix
+CONSTANTS SccFix, TfcChain
 
-NoObs == [has |-> FALSE, v |-> <<>>]
+NoObs == [has |-> FALSE, v |-> <<>>, t |-> {}]
 SeqSet(s) == {s[i] : i \in 1..Len(s)}
 
 NoComp(p) == [on |-> FALSE, order |-> <<>>,
-              obs |-> [d \in NodeIds(p) |-> NoObs], scc |-> FALSE]
+              obs |-> [d \in NodeIds(p) |-> NoObs], scc |-> FALSE, tfc |-> {}]
 
 InitState(p) ==
     LET I == NodeIds(p) IN
@@ -57,6 +67,7 @@ InitState(p) ==
       fwd   |-> [n \in I |-> <<>>],       \* forward edge order
       obs   |-> [n \in I |-> [d \in I |-> NoObs]],   \* forward edge observations
       fp    |-> [n \in I |-> <<>>],       \* node info: value fingerprint
+      tfc   |-> [n \in I |-> {}],         \* node info: transitive firewall callees
       val   |-> [n \in I |-> None],       \* stored result
       dirty |-> {},                       \* dirty edges <<caller, callee>>
       back  |-> [n \in I |-> {}],         \* backward edges
@@ -78,14 +89,19 @@ DirtyProp(S, work) ==
             ELSE LET callers == S.back[x]
                      S1 == [S EXCEPT !.dirtied = @ \cup {x},
                                      !.dirty = @ \cup {<<c, x>> : c \in callers}]
-                 IN DirtyProp(S1, rest \cup callers)
+                     cont == {c \in callers : S.kind[c] # "Fw"}    \* a firewall absorbs the dirtiness
+                 IN DirtyProp(S1, rest \cup cont)
 
 (* ---- the computing table ---------------------------------------------- *)
 RegisterCallee(S, c, q) ==
     IF q \in SeqSet(S.comp[c].order) THEN S
     ELSE [S EXCEPT !.comp[c].order = Append(@, q)]
 
-ObserveCallee(S, c, q) == [S EXCEPT !.comp[c].obs[q] = [has |-> TRUE, v |-> S.fp[q]]]
+ObserveCallee(S, c, q) ==
+    LET add == IF S.kind[q] = "Fw" THEN {q} ELSE IF S.kind[q] = "Nm" THEN S.tfc[q] ELSE {}
+    IN [S EXCEPT !.comp[c].obs[q] = [has |-> TRUE, v |-> S.fp[q], t |-> S.tfc[q]],
+                 !.comp[c].tfc = @ \cup add]
+\* (the firewalls merged into the caller's set stay: only the observation is forgotten)
 Unobserve(S, c, q) == [S EXCEPT !.comp[c].obs[q] = NoObs]
 
 Callees(S, x) == SeqSet(S.comp[x].order)
@@ -110,7 +126,8 @@ FastPath(S, q) ==
     ELSE IF S.lv[q] # S.ts THEN "repair"
     ELSE "hit"
 
-Caller(k, id, req) == [k |-> k, id |-> id, req |-> req]
+Caller(k, id, req) == [k |-> k, id |-> id, req |-> req, chain |-> {}]
+CallerRF(chain) == [k |-> "RF", id |-> 0, req |-> FALSE, chain |-> chain]
 
 (* ---- publication ------------------------------------------------------- *)
 SetComputed(p, S, q, value, fpv, existing, clean) ==
@@ -121,7 +138,8 @@ SetComputed(p, S, q, value, fpv, existing, clean) ==
     IN [S EXCEPT !.back = back2,
                  !.dirty = IF clean THEN @ \ {<<q, d>> : d \in old} ELSE @,
                  !.fp = [@ EXCEPT ![q] = fpv],
-                 !.kind = [@ EXCEPT ![q] = "Nm"],
+                 !.tfc = [@ EXCEPT ![q] = S.comp[q].tfc],
+                 !.kind = [@ EXCEPT ![q] = p.nodes[q].kind],
                  !.lv = [@ EXCEPT ![q] = S.ts],
                  !.fwd = [@ EXCEPT ![q] = S.comp[q].order],
                  !.obs = [@ EXCEPT ![q] = S.comp[q].obs],
@@ -134,7 +152,8 @@ RECURSIVE Execute(_, _, _, _)
 RECURSIVE RunDepsC(_, _, _, _, _, _, _)
 RECURSIVE RunItemsC(_, _, _, _, _, _)
 RECURSIVE Repair(_, _, _)
-RECURSIVE CheckCallees(_, _, _, _, _, _)
+RECURSIVE CheckCallees(_, _, _, _, _, _, _)
+RECURSIVE RepairEachFw(_, _, _, _, _)
 
 (* query_for: returns [S, v, err]; err = CyclicError                        *)
 QF(p, S, q, c, fuel) ==
@@ -144,7 +163,8 @@ QFLoop(p, S, q, c, fuel) ==
     IF fuel = 0 THEN [S |-> SetErr(S, "fuel"), v |-> None, err |-> FALSE]
     ELSE IF S.comp[q].on
     THEN \* exit_scc: the callee is being computed
-         IF c.k # "Query" THEN [S |-> SetErr(S, "user request met a computing query"), v |-> None, err |-> FALSE]
+         \* no query caller: exit_scc lets the request through, it then waits for the entry for ever
+         IF c.k # "Query" THEN [S |-> SetErr(S, "a request without a query caller met a computing query"), v |-> None, err |-> FALSE]
          ELSE LET R == ReachC(S, {q}, {q})
                   M == InScc(S, R, c.id, {})
                   S1 == MarkScc(S, M)
@@ -159,9 +179,25 @@ QFLoop(p, S, q, c, fuel) ==
                   cut == c.k = "Query" /\ S1.comp[c.id].scc
                   S2 == IF cut /\ SccFix = "forget" THEN Unobserve(S1, c.id, q) ELSE S1
               IN [S |-> S2, v |-> IF cut \/ ~c.req THEN None ELSE S.val[q], err |-> cut]
-         ELSE LET Sg == [S EXCEPT !.comp[q] = [NoComp(p) EXCEPT !.on = TRUE]]   \* get_write_guard
-                  S2 == IF fp = "compute" THEN Execute(p, Sg, q, "fresh") ELSE Repair(p, Sg, q)
-              IN QFLoop(p, S2, q, c, fuel - 1)
+         ELSE \* a user-level / RepairFirewall request repairs the transitive firewall callees of an
+              \* out-of-date query first, outside the query's lock
+              LET doTfc == fp = "repair" /\ c.k \in {"User", "RF"}
+                  chain == c.chain \cup {q}
+                  todo == IF TfcChain THEN S.tfc[q] \ chain ELSE S.tfc[q]
+                  S1 == IF doTfc THEN RepairEachFw(p, S, todo, chain, fuel - 1) ELSE S
+                  fp2 == FastPath(S1, q)
+              IN IF fp2 = "hit" THEN QFLoop(p, S1, q, c, fuel - 1)
+                 ELSE LET Sg == [S1 EXCEPT !.comp[q] = [NoComp(p) EXCEPT !.on = TRUE]]   \* get_write_guard
+                          S2 == IF fp2 = "compute" THEN Execute(p, Sg, q, "fresh") ELSE Repair(p, Sg, q)
+                      IN QFLoop(p, S2, q, c, fuel - 1)
+
+(* repair every firewall of `todo` (ascending) as RepairFirewall            *)
+RepairEachFw(p, S, todo, chain, fuel) ==
+    IF todo = {} THEN S
+    ELSE IF fuel = 0 THEN SetErr(S, "fuel")
+    ELSE LET x == CHOOSE x \in todo : \A y \in todo : x <= y
+             r == QFLoop(p, S, x, CallerRF(chain), fuel)
+         IN RepairEachFw(p, r.S, todo \ {x}, chain, fuel)
 
 (* the executor of q reads deps[i..] of item `it`; a CyclicError unwinds it *)
 RunDepsC(p, S, q, it, i, acc, reads) ==
@@ -187,35 +223,43 @@ Execute(p, S, q, mode) ==
         \* a CyclicError is only ever handed to a caller that is marked
         S2 == IF r.err /\ ~inScc THEN SetErr(S1, "unwound outside an SCC") ELSE S1
         fpv == IF inScc /\ SccFix = "fresh" THEN <<"scc", value, S.ts>> ELSE <<"v", value>>
-    IN SetComputed(p, S2, q, value, fpv, S.fwd[q], mode = "recompute")
+        \* a recomputed firewall whose fingerprint changed propagates the dirtiness itself
+        updated == S.kind[q] = "Fw" /\ mode = "recompute" /\ S.fp[q] # fpv
+        S3 == IF updated THEN DirtyProp(S2, {q}) ELSE S2
+    IN SetComputed(p, S3, q, value, fpv, S.fwd[q], mode = "recompute")
 
 (* check the recorded callees of q in order; stop at the first that differs *)
-CheckCallees(p, S, q, order, i, cleaned) ==
-    IF i > Len(order) THEN [S |-> S, dec |-> "clean", cleaned |-> cleaned]
+CheckCallees(p, S, q, order, i, cleaned, rtfc) ==
+    IF i > Len(order) THEN [S |-> S, dec |-> "clean", cleaned |-> cleaned, rtfc |-> rtfc]
     ELSE LET d == order[i] IN
-         IF <<q, d>> \notin S.dirty THEN CheckCallees(p, S, q, order, i + 1, cleaned)
+         IF <<q, d>> \notin S.dirty THEN CheckCallees(p, S, q, order, i + 1, cleaned, rtfc)
          ELSE LET r == IF S.kind[d] # "Input"
                        THEN QF(p, S, d, Caller("Query", q, FALSE), 6)
                        ELSE [S |-> S, v |-> None, err |-> FALSE]
                   o == S.obs[q][d]
               IN IF r.err \/ ~o.has \/ r.S.fp[d] # o.v
-                 THEN [S |-> r.S, dec |-> "recompute", cleaned |-> cleaned]
-                 ELSE CheckCallees(p, r.S, q, order, i + 1, cleaned \cup {d})
+                 THEN [S |-> r.S, dec |-> "recompute", cleaned |-> cleaned, rtfc |-> rtfc]
+                 ELSE CheckCallees(p, r.S, q, order, i + 1, cleaned \cup {d},
+                                   rtfc \/ (r.S.kind[d] # "Fw" /\ r.S.tfc[d] # o.t))
 
 Repair(p, S, q) ==
-    LET r == CheckCallees(p, S, q, S.fwd[q], 1, {})
+    LET r == CheckCallees(p, S, q, S.fwd[q], 1, {}, FALSE)
         inScc == r.S.comp[q].scc
     IN IF r.dec = "recompute" \/ inScc
        THEN \* clear_dependencies; an in-SCC query re-registers the callees of its previous execution
             LET S1 == [r.S EXCEPT !.comp[q].order = IF inScc THEN S.fwd[q] ELSE <<>>,
                                   !.comp[q].obs = [d \in NodeIds(p) |-> NoObs]]
             IN Execute(p, S1, q, "recompute")
-       ELSE [r.S EXCEPT !.dirty = @ \ {<<q, d>> : d \in r.cleaned},
-                        !.lv = [@ EXCEPT ![q] = r.S.ts],
-                        !.comp = [@ EXCEPT ![q] = NoComp(p)]]
+       ELSE LET S1 == r.S
+                callees == SeqSet(S1.fwd[q])
+                newtfc == UNION {IF S1.kind[d] = "Fw" THEN {d} ELSE S1.tfc[d] : d \in callees}
+            IN [S1 EXCEPT !.dirty = @ \ {<<q, d>> : d \in r.cleaned},
+                          !.tfc = IF r.rtfc THEN [@ EXCEPT ![q] = newtfc] ELSE @,
+                          !.lv = [@ EXCEPT ![q] = S1.ts],
+                          !.comp = [@ EXCEPT ![q] = NoComp(p)]]
 
 (* ---- user-level operations --------------------------------------------- *)
-UserQuery(p, S, q) == QF(p, S, q, Caller("User", 0, TRUE), 8)
+UserQuery(p, S, q) == QF(p, S, q, Caller("User", 0, TRUE), 10)
 
 SessBegin(S) == [S EXCEPT !.ts = @ + 1]
 
